@@ -6,3 +6,4 @@ import RSVerif.Properties.C01
 #print axioms RS.roundtrip
 #print axioms RS.flat_decoders_are_lane_decoders
 #print axioms RS.source_decoders_are_model_decoders
+#print axioms RS.source_decoder_helpers_are_model
